@@ -41,8 +41,10 @@ def _codec_suffix(m):
 
 RULES = [
     # R8: attributes
-    ('R8a', 'drop #[allow(..)] / #[track_caller] / #[inline..] attributes',
-     re.compile(r'(?m)^[ \t]*#\[(allow|track_caller|inline|must_use|doc)[^\]]*\]\s*\n'), ''),
+    ('R8a', 'drop #[allow(..)] / #[track_caller] / #[inline..] / #[target_feature(..)] attributes',
+     re.compile(r'(?m)^[ \t]*#\[(allow|track_caller|inline|must_use|doc|target_feature)[^\]]*\]\s*\n'), ''),
+    ('R8c', '`unsafe fn` -> `fn` (the obligations of the unsafe operations inside — in-bounds pointer arithmetic and reads — are stated by the stand-ins)',
+     re.compile(r'\bunsafe fn\b'), 'fn'),
     # R5: logging and progress callback statements
     ('R5a', 'drop tracing::debug!(..); statements',
      re.compile(r'(?m)^[ \t]*tracing::(debug|info|trace|warn)!\((?:[^;]|\n)*?\);\s*\n'), ''),
@@ -80,7 +82,7 @@ RULES = [
     ('R6f', '`for x in A..=B {` -> `let mut cnti__: u64 = A as u64; while cnti__ <= B as u64 { let x = cnti__ as _; cnti__ += 1;` (inclusive counting loop, counter widened so that the last value does not overflow)',
      re.compile(r'for (\w+) in (\w+)\.\.=([\w:]+) \{'), r'let mut cnti__: u64 = \2 as u64; while cnti__ <= \3 as u64 { let \1 = cnti__ as _; cnti__ += 1;'),
     ('R6g', '`for x in A..B {` -> `let mut cnti__: u64 = A as u64; while cnti__ < B as u64 { let x = cnti__ as _; cnti__ += 1;` (exclusive counting loop, same counter name as R6f)',
-     re.compile(r'for ([a-z]\w*) in (\w+)\.\.([\w:]+) \{'), r'let mut cnti__: u64 = \2 as u64; while cnti__ < \3 as u64 { let \1 = cnti__ as _; cnti__ += 1;'),
+     re.compile(r'for ([a-z]\w*) in (\w+)\.\.([\w:]+(?: [-+*/%] \w+)?) \{'), r'let mut cnti__: u64 = \2 as u64; while cnti__ < (\3) as u64 { let \1 = cnti__ as _; cnti__ += 1;'),
     ('R7b', 'X.map(Some) -> X.map_some_()', re.compile(r'\.map\(Some\)'), '.map_some_()'),
     # (R2 retired: heed's remap_* type-state is modelled natively by DatabaseG<DC: DataCodec>)
     ('R2', 'NodeCodec<D> -> NodeCodec (codec marker of the uninterpreted metric)', re.compile(r'\bNodeCodec<(?:D|ND)>'), 'NodeCodec'),
@@ -139,7 +141,7 @@ R6B_DESC = ('R6b', 'for PAT in EXPR { .. } over a non-range iterator -> let mut 
             '`for PAT in vec.iter()` for a Vec named by //@veciter -> index loop `let PAT = &vec[idx__N]` (R6h)')
 
 
-def rule_r6b(text, veciter=()):
+def rule_r6b(text, veciter=(), iteridents=()):
     n = 0
     out = text
     while True:
@@ -174,7 +176,7 @@ def rule_r6b(text, veciter=()):
                 n += 1
                 found = 'restart'
                 break
-            if re.match(r'^\w+$', expr):
+            if re.match(r'^\w+$', expr) and expr not in iteridents:
                 # `for x in coll` (Vec<u32> by value or &RoaringBitmap: ascending ids) -> index loop over the prelude trait IdxIter
                 ls = out.rfind('\n', 0, m.start()) + 1
                 indent = re.match(r'[ \t]*', out[ls:]).group(0)
@@ -276,7 +278,7 @@ def rule_r6d(text):
         n += 1
 
 
-def apply_rules(text, skip=(), veciter=()):
+def apply_rules(text, skip=(), veciter=(), iteridents=()):
     fired = {}
     for rid, _desc, rx, rep in RULES:
         if rid in skip:
@@ -293,7 +295,7 @@ def apply_rules(text, skip=(), veciter=()):
         if n:
             fired['R6d'] = n
     if 'R6b' not in skip:
-        text, n = rule_r6b(text, veciter)
+        text, n = rule_r6b(text, veciter, iteridents)
         if n:
             fired['R6b'] = n
     if 'R9' not in skip:
@@ -324,6 +326,8 @@ class Block:
         self.substs = []   # (old, new, count)
         self.hints = []    # (where, anchor, text)
         self.tmpctx = None      # expression naming the view a new TmpNodes is created under (rule R14; default `wtxn`)
+        self.dropblocks = []    # attribute texts: the attribute and the `{ .. }` block it guards are removed (cfg that is false on this target)
+        self.iteridents = []    # identifiers that already ARE iterators: `for p in NAME` uses NAME.next() (not the index loop of collections)
         self.veciter = []       # identifiers that are Vecs: `for P in NAME.iter()` becomes an index loop (R6h)
         self.ghostparams = []   # declarations appended to the parameter list (erased at run time)
         self.ghostargs = []     # (callee, expr) appended to every call of `callee` in the body
@@ -427,6 +431,10 @@ def parse_template(path, units_dir):
                     b.substs.append(('\n'.join(old), '\n'.join(new), cnt)); cur = None
                 elif ln.startswith('//@tmpctx '):
                     b.tmpctx = ln[len('//@tmpctx '):].strip(); cur = None
+                elif ln.startswith('//@dropblock '):
+                    b.dropblocks.append(ln[len('//@dropblock '):].strip()); cur = None
+                elif ln.startswith('//@iterident '):
+                    b.iteridents += ln.split()[1:]; cur = None
                 elif ln.startswith('//@veciter '):
                     b.veciter += ln.split()[1:]; cur = None
                 elif ln.startswith('//@ghostparam '):
@@ -562,10 +570,21 @@ def extract_block(b: Block, snapshot: str):
     raw = src[loc['start']:loc['body_close'] + 1]
     src_line0 = rustlex.line_of(src, loc['start'])
     src_line1 = rustlex.line_of(src, loc['body_close'])
+    for attr in b.dropblocks:
+        # code guarded by a cfg that is false on the target the crate is built for here: dropped, as the compiler does
+        while attr in raw:
+            k = raw.index(attr)
+            mk = rustlex.mask(raw)
+            ob = mk.index('{', k + len(attr))
+            if raw[k + len(attr):ob].strip():
+                raise ExtractError('dropblock: %s does not guard a block in %s::%s' % (attr, b.file, b.fn))
+            cb = rustlex.match_close(mk, ob)
+            ls = raw.rfind('\n', 0, k) + 1
+            raw = raw[:ls] + raw[cb + 1:].lstrip('\n')
     if not any('exec_allows_no_decreases_clause' in a for a in b.attrs) and not b.stub:
         # partial correctness everywhere: termination is never claimed unless a decreases clause is listed in the evidence
         b.attrs = list(b.attrs) + ['#[verifier::exec_allows_no_decreases_clause]']
-    text, fired = apply_rules(raw, skip=b.noglobal, veciter=b.veciter)
+    text, fired = apply_rules(raw, skip=b.noglobal, veciter=b.veciter, iteridents=b.iteridents)
     if b.tmpctx:
         text = re.sub(r'(TmpNodes::new_g_\()wtxn\)', r'\g<1>%s)' % b.tmpctx, text)
         text = re.sub(r'(TmpNodes::new_in_g_\(\w+, )wtxn\)', r'\g<1>%s)' % b.tmpctx, text)
